@@ -62,6 +62,10 @@ type fnSpec struct {
 	// writes: a package-level variable (also listed in `globals`) the function assigns; a function without results
 	// (`init`) then returns the variable's final value
 	writes string
+	// round2: second-round conventions (set for every entry of whitelist2): non-constant shift counts go through
+	// `shl` / `shr` (same value as `<<<` / `>>>`, but executable for the astronomically large counts a converted
+	// negative number yields: Lean's `<<<` on BitVec would first build 2^n)
+	round2 bool
 }
 
 // groups in file order; a function may only call functions of its own or an earlier group
@@ -144,7 +148,12 @@ var whitelist2 = []fnSpec{
 		views: map[string]string{"p": "Black Height White blackCaps cfg.Size move whiteCaps"}},
 }
 
-func init() { whitelist = append(whitelist, whitelist2...) }
+func init() {
+	for i := range whitelist2 {
+		whitelist2[i].round2 = true
+	}
+	whitelist = append(whitelist, whitelist2...)
+}
 
 // accessors: methods of abstract (non-translatable) parameters that may be read like a field.
 // The corresponding `fn.*` op passes the real method's value, so a changed accessor shows up there.
@@ -185,6 +194,12 @@ def trailingZeros64_loop : Nat → Nat → BitVec 64 → Nat
   | 0, k, _ => k
   | n+1, k, x => if x.getLsbD 0 then k else trailingZeros64_loop n (k+1) (x >>> 1)
 def trailingZeros64 (x : BitVec 64) : Nat := if x == 0#64 then 64 else trailingZeros64_loop 64 0 x
+
+/-- Go's x << n for a count that may be astronomically large (uint(v) of a negative v): the value of x <<< n
+(Proofs/GenSlices.lean shl_eq), computed without building 2^n -/
+def shl {w : Nat} (x : BitVec w) (n : Nat) : BitVec w := if n < w then x <<< n else 0#w
+/-- Go's x >> n, likewise (shr_eq) -/
+def shr {w : Nat} (x : BitVec w) (n : Nat) : BitVec w := if n < w then x >>> n else 0#w
 
 `
 
@@ -1095,10 +1110,16 @@ func (t *tr) binary(e *ast.BinaryExpr, rt ltype) string {
 		}
 	case token.SHL:
 		if lt.c == tBV {
+			if t.spec.round2 && t.p.info.Types[e.Y].Value == nil {
+				return "(shl " + l + " " + t.shiftAmount(e.Y) + ")"
+			}
 			return "(" + l + " <<< " + t.shiftAmount(e.Y) + ")"
 		}
 	case token.SHR:
 		if lt.c == tBV {
+			if t.spec.round2 && t.p.info.Types[e.Y].Value == nil {
+				return "(shr " + l + " " + t.shiftAmount(e.Y) + ")"
+			}
 			return "(" + l + " >>> " + t.shiftAmount(e.Y) + ")"
 		}
 	}
